@@ -34,7 +34,7 @@ BROKEN = ['fn broken( {', 'this is not rust at all', 'fn ok() {}\nfn f() {\n    
 class C15(C.PipelineCheck):
     id = 'C15'
     title = 'No input makes analysis or generation panic; bad files are isolated'
-    required_covers = ('kernel:ascii', 'kernel:utf8', 'attribute', 'identifier', 'unparsable', 'isolated', 'calls')
+    required_covers = ('kernel:ascii', 'kernel:utf8', 'attribute', 'identifier', 'unparsable', 'isolated', 'calls', 'attr-ident')
 
     def bounds(self, tier):
         q = tier != 'thorough'
@@ -65,6 +65,10 @@ class C15(C.PipelineCheck):
         for pos in ('rename', 'alias', 'rename_all', 'message', 'length-arg', 'event', 'derive-arg'):
             for n in range(0, 3 if q else 4):
                 yield ('attr/%s/%d' % (pos, n), dict(kind='attr', pos=pos, n=n))
+        # attribute values that are identifiers / raw identifiers / paths instead of literals (a const holding the message)
+        for form in ('message = HOLE_i', 'message = r#HOLE_i', 'min = HOLE_i', 'message = r#HOLE_i, min = 1', 'code = r#HOLE_i'):
+            for n in (1, 2, 3):
+                yield ('attr-ident/%s/%d' % (form.replace('HOLE_', '').replace(' ', ''), n), dict(kind='attr-ident', form=form, n=n))
         for what in ('command', 'param', 'field', 'variant', 'struct'):
             for n in (1, 2):
                 yield ('ident/%s/%d' % (what, n), dict(kind='ident', what=what, n=n))
@@ -137,6 +141,18 @@ class C15(C.PipelineCheck):
                     src = 'pub fn fire(app: tauri::AppHandle) { app.emit("HOLE_l", "HOLE_l").unwrap(); }\n#[derive(Serialize, Deserialize)]\npub struct Foo { pub a: String }\n'
                 files['src/main.rs'] = head + src + CMD + 'cmd(x: Foo) -> i32 { 0 }\n'
                 e.cover('attribute')
+            elif kind == 'attr-ident':
+                nm = sym.sym_str('i', p['n'], 'abcdefghijklmnopqrstuvwxyz')
+                for w in ('self', 'crate', 'super'):
+                    if len(w) == p['n']:
+                        e.assume(z_not(V.str_eq(nm, Str(w))))
+                if 'r#' not in p['form']:
+                    e.assume(PL.not_rust_keyword(nm))
+                holes['i'] = nm
+                vk = ('range', 'length')[e.choose(2)]
+                files['src/main.rs'] = (C.HEADER + '#[derive(Serialize, Deserialize)]\npub struct Foo { #[validate(%s(%s))] pub a: u32, #[serde(rename = "x")] pub b: String }\n' % (vk, p['form']) +
+                                        CMD + 'cmd(x: Foo) -> i32 { 0 }\n')
+                e.cover('attr-ident')
             elif kind == 'calls':
                 nargs = e.choose(5)
                 recv = ('app', 'window', 'self.app', 'bus.sender()', 'app.clone()')[e.choose(5)]
@@ -213,6 +229,8 @@ class C15(C.PipelineCheck):
                         tag = 'unparsable:%d' % p['b']
                     if kind == 'calls':
                         tag = 'calls:' + p['meth']
+                    if kind == 'attr-ident':
+                        tag = 'attr-ident'
                     ctx.violation(e, 'C15/%s/%s/panic' % (tag, mode), 'no panic on any input', True,
                                   lambda m: C.witness_of(proj, m, dict(mode=mode, kind='panic', panic=pn.msg)), pn.msg)
                 return
